@@ -28,6 +28,23 @@ def loneExit : Stmts → Bool
   | .cons s .nil => isExit s
   | _ => false
 
+/-- statements behind which control does not go on -/
+def endsStmt : Stmt → Bool
+  | .ret => true
+  | .end_ => true
+  | .hold => true
+  | .brk => true
+  | .cont => true
+  | .brkLoop => true
+  | .jump _ => true
+  | _ => false
+
+/-- the last statement of the block is one behind which control does not go on -/
+def endsFlowStmts : Stmts → Bool
+  | .nil => false
+  | .cons s .nil => endsStmt s
+  | .cons _ r => endsFlowStmts r
+
 /-- `CaseValue` under `SwitchScenario` is collected as `CaseScenario` -/
 def caseName (sw name : String) : String :=
   if sw == Gen.op_switch_scenario && name == Gen.op_case_value then Gen.op_case_scenario else name
@@ -40,8 +57,10 @@ mutual
 /-- the statements `codegen_correct` covers, by level: always F0 (`cgSimple`) and if / elseif / else with any headers, `not`,
 empty blocks (F1); from level 2 on `forever` / `while` / `for` with `continue` and `break_loop` (F2; the init and increment
 statements of `for` are F0 statements); from level 3 on `switch` with `case` / `default` / `break`, fall-through and
-cases sharing a block (F3; not: a switch without cases, a header op that ends the routine, a case block that is a single
-`break` / `continue` / `break_loop`, which `_process_block` may fold into the header jump); from level 4 on user labels,
+cases sharing a block (F3; not: a header op that ends the routine; a case block that is a single `break` / `continue` /
+`break_loop` / `jump` — `_process_block` may fold it into the header jumps — only if nothing can fall into it: it is the first
+block of the switch, or the block before it ends in `return` / `end` / `hold` / `break` / `continue` / `break_loop` / `jump`;
+`nf` of `cgCases`); from level 4 on user labels,
 `jump @l` and `call @l` anywhere (F4) -/
 def cgStmt (lv : Nat) : Stmt → Bool
   | .op n ps => cgSimple (.op n ps)
@@ -55,8 +74,8 @@ def cgStmt (lv : Nat) : Stmt → Bool
   | .jump _ => decide (4 ≤ lv)
   | .call _ => decide (4 ≤ lv)
   | .brk => decide (3 ≤ lv)
-  | .switch hdr cs => decide (3 ≤ lv) && nameOK hdr.name && !Beh.endsFlow hdr.name && !cs.isNil && decide (countDefaults cs ≤ 1) &&
-      cgCases lv hdr.name cs
+  | .switch hdr cs => decide (3 ≤ lv) && nameOK hdr.name && !Beh.endsFlow hdr.name && decide (countDefaults cs ≤ 1) &&
+      cgCases lv hdr.name true cs
   | .cont => decide (2 ≤ lv)
   | .brkLoop => decide (2 ≤ lv)
   | .forever body => decide (2 ≤ lv) && cgStmts lv body
@@ -69,10 +88,18 @@ def cgStmts (lv : Nat) : Stmts → Bool
 def cgElifs (lv : Nat) : Elifs → Bool
   | .nil => true
   | .cons _ hdrs body r => hdrs.all (fun h => isTest h.name) && cgStmts lv body && cgElifs lv r
-def cgCases (lv : Nat) (sw : String) : Cases → Bool
+def cgCases (lv : Nat) (sw : String) (nf : Bool) : Cases → Bool
   | .nil => true
-  | .cons d name _ body r => (d || (isTest name && isTest (caseName sw name))) && !loneExit body && cgStmts lv body && cgCases lv sw r
+  | .cons d name _ body r => (d || (isTest name && isTest (caseName sw name))) && (d || !loneExit body || nf) && cgStmts lv body &&
+      cgCases lv sw (if body.isNil then nf else endsFlowStmts body) r
 end
+
+theorem cgCases_cons {lv : Nat} {sw : String} {nf d : Bool} {name : String} {ps : List Param} {body : Stmts} {r : Cases}
+    (h : cgCases lv sw nf (.cons d name ps body r) = true) :
+    (d = true ∨ (isTest name = true ∧ isTest (caseName sw name) = true)) ∧ (d = true ∨ loneExit body = false ∨ nf = true) ∧
+    cgStmts lv body = true ∧ cgCases lv sw (if body.isNil then nf else endsFlowStmts body) r = true := by
+  simp only [cgCases, Bool.and_eq_true, Bool.or_eq_true, Bool.not_eq_true'] at h
+  exact ⟨h.1.1.1, by rcases h.1.1.2 with (a | a) | a <;> simp [a], h.1.2, h.2⟩
 
 mutual
 /-- the user labels a statement mentions (defines, jumps to, calls) -/
